@@ -652,6 +652,9 @@ func (e *Engine) exec(fr *Frame, s *State, in ssa.Instruction) {
 			if _, ok := r.(*Unsupported); ok {
 				panic(r)
 			}
+			if _, ok := r.(abortHarness); ok {
+				panic(r)
+			}
 			if a, ok := r.(annotated); ok {
 				panic(a)
 			}
